@@ -17,6 +17,7 @@ pub ghost enum FsEvent {
     Open { path: Seq<char>, mode: u32, created: bool, truncated: bool },
     Write { path: Seq<char> },
     Chown { path: Seq<char>, uid: Option<u32>, gid: Option<u32> },
+    Lchown { path: Seq<char>, uid: Option<u32>, gid: Option<u32> },   // ownership of the path itself, a symbolic link not followed (lchown / fchownat AT_SYMLINK_NOFOLLOW)
     Rename { from: Seq<char>, to: Seq<char> },
     Remove { path: Seq<char> },
 }
